@@ -197,7 +197,7 @@ func (lm *levelManager) searchLowerBound(key types.Key) (types.Entry, bool) {
 			}
 
 			// determine which data block the key is in
-			dataBlockHandle, ok := th.dataBlockIndex.Search(key)
+			dataBlockHandle, ok := th.dataBlockIndex.SearchLowerBound(key)
 			if !ok {
 				// not in this sstable, search next one
 				continue
